@@ -232,8 +232,58 @@ def main_groups(cases):
     return out
 
 
+def main_stridefold(cases):
+    """[h, w, c, oc, kh, kw, stride_w, same, uint8]: one CONV_2D, first operator of its network, with that width stride; what
+    fixup_strided_conv makes of it: folded or not, fold factor, remaining stride, zeros put in front of / behind the
+    kernel (found by locating the source kernel in the folded one), folded IFM extents, padding mode afterwards"""
+    import numpy as np
+    from ethosu.vela import model_reader
+    from ethosu.vela.architecture_features import Accelerator, create_default_arch
+    from ethosu.vela.tflite_graph_optimiser import fixup_strided_conv
+    arch = create_default_arch(Accelerator.Ethos_U55_128)
+    out = []
+    tmp = tempfile.mkdtemp(prefix="rw_", dir=os.environ.get("VERIF_TMP"))
+    for i, case in enumerate(cases):
+        h, w, c, oc, kh, kw, sw, same, u8 = case
+        rng = random.Random(str(case))
+        net = netgen.Net("stridefold")
+        x = net.input([1, h, w, c], "uint8" if u8 else "int8", 0.05, 120 if u8 else 3)
+        y = netgen.conv2d(net, rng, x, oc, (kh, kw), (1, sw), (1, 1), "SAME" if same else "VALID", per_axis=False)
+        net.output(y)
+        path = os.path.join(tmp, "s%d.tflite" % i)
+        open(path, "wb").write(net.build())
+        nng, _ = model_reader.read_model(path, model_reader.ModelReaderOptions())
+        os.remove(path)
+        op = [o for o in nng.subgraphs[0].get_all_ops() if o.type.is_conv2d_op()][0]
+        op.run_on_npu = True
+        op.set_ifm_ofm_shapes()
+        src = np.asarray(op.weights.values).copy()         # HWIO
+        zp = int(np.asarray(op.weights.quantization.zero_point).reshape(-1)[0])
+        ofm_w = int(op.ofm_shapes[0].width)
+        res = fixup_strided_conv(op, arch, nng)
+        new = np.asarray(res.weights.values)
+        if list(new.shape) == list(src.shape):
+            out.append({"folded": 0, "op_index": int(op.op_index), "ofm_w": ofm_w})
+            continue
+        n = new.shape[2] // src.shape[2]
+        tot = new.shape[1] * n - src.shape[1]
+        found = -1
+        for l in range(tot + 1):
+            padded = np.pad(src, [(0, 0), (l, tot - l), (0, 0), (0, 0)], constant_values=zp)
+            if (padded.reshape(new.shape) == new).all():
+                found = l
+                break
+        out.append({"folded": 1, "n": int(n), "s": int(res.attrs["stride_w"]), "l": int(found), "r": int(tot - found) if found >= 0 else -1,
+                    "ifm": [int(v) for v in res.ifm_shapes[0].as_list()], "padding": str(res.attrs.get("padding")), "ofm_w": ofm_w, "zp": zp})
+    os.rmdir(tmp)
+    return out
+
+
 def main():
     cases = json.load(open(sys.argv[1]))
+    if len(sys.argv) > 3 and sys.argv[3] == "stridefold":
+        json.dump(main_stridefold(cases), open(sys.argv[2], "w"))
+        return
     if len(sys.argv) > 3 and sys.argv[3] == "groups":
         json.dump(main_groups(cases), open(sys.argv[2], "w"))
         return
